@@ -1,4 +1,149 @@
 import TransportVerif.Model.ReadDeadline
+import TransportVerif.Proofs.ReadDeadline
+/-
+C10 — read deadlines: no early or spurious timeout; expiry persists until reset.
+One model (Model/ReadDeadline.lean: a reader that checks the deadline signal first and then waits
+for data or the signal, on top of the Deadline model of C09) stands for all five connection
+types; the correspondence check runs the same histories against each of them.
+The statements below are FIXED; only the proofs may change.
+-/
 namespace TV.Props.C10
-theorem placeholder : True := trivial
+open TV TV.ReadDeadline
+open TV.Proofs.ReadDeadline (Settled settled_new settled_step step_d settle_deadline settle_now set_deadline
+  set_now release_d release_timeout release_of_closed release_unblocked)
+
+def runConn (c : Conn) : List ReadDeadline.Op → Conn
+  | [] => c
+  | op :: ops => runConn (step c op).1 ops
+
+/-- reachable by any history of SetReadDeadline / arrivals / reads / idle periods -/
+def Reach (c : Conn) : Prop := ∃ ops, c = runConn Conn.new ops
+
+/-- the settled invariant is kept along every history -/
+theorem settled_run (c : Conn) (S : Settled c.d) (ops : List ReadDeadline.Op) : Settled (runConn c ops).d := by
+  induction ops generalizing c with
+  | nil => exact S
+  | cons op ops ih => exact ih _ (settled_step S op)
+
+theorem settled_reach {c : Conn} (h : Reach c) : Settled c.d := by
+  obtain ⟨ops, rfl⟩ := h
+  exact settled_run _ settled_new ops
+
+theorem runConn_append (c : Conn) (ops ops' : List ReadDeadline.Op) :
+    runConn c (ops ++ ops') = runConn (runConn c ops) ops' := by
+  induction ops generalizing c with
+  | nil => rfl
+  | cons op ops ih => exact ih _
+
+/-- reachability is closed under `step` -/
+theorem reach_step {c : Conn} (h : Reach c) (op : ReadDeadline.Op) : Reach (step c op).1 := by
+  obtain ⟨ops, rfl⟩ := h
+  exact ⟨ops ++ [op], by rw [runConn_append]; rfl⟩
+
+/-- in every reachable state the deadline signal is raised exactly when a non-zero deadline is in
+    force and has passed (timer callbacks are settled after every step) -/
+theorem signal_iff_passed (c : Conn) (h : Reach c) :
+    c.d.doneClosed = true ↔ ∃ t, c.d.deadline = some t ∧ t ≤ c.d.now :=
+  (settled_reach h).closedIff
+
+/-- a read fails with a timeout only if a non-zero deadline is in force and has passed -/
+theorem timeout_only_if_passed (c : Conn) (h : Reach c) (op : ReadDeadline.Op) (ht : (step c op).2 = .timeout) :
+    ∃ t, (step c op).1.d.deadline = some t ∧ t ≤ (step c op).1.d.now := by
+  have S' := settled_step (settled_reach h) op
+  apply S'.closedIff.mp
+  cases op with
+  | setDeadline nt =>
+    simp only [step] at ht ⊢
+    rw [release_d]
+    exact (release_timeout ht).2
+  | advance dt =>
+    simp only [step] at ht ⊢
+    rw [release_d]
+    exact (release_timeout ht).2
+  | arrive =>
+    simp only [step] at ht
+    split at ht <;> cases ht
+  | read =>
+    simp only [step] at ht ⊢
+    split at ht
+    · cases ht
+    · split at ht
+      · rename_i hb hc
+        rw [if_neg hb, if_pos hc]; exact hc
+      · split at ht <;> cases ht
+
+/-- a blocked read is released with a timeout once its deadline passes -/
+theorem blocked_read_released_at_expiry (c : Conn) (h : Reach c) (t : Int) (dt : Nat)
+    (hb : c.blocked = true) (hd : c.d.deadline = some t) (hp : t ≤ c.d.now + dt) :
+    (step c (.advance dt)).2 = .timeout ∧ (step c (.advance dt)).1.blocked = false := by
+  have S' := settled_step (settled_reach h) (.advance dt)
+  have hdd := step_d c (.advance dt)
+  simp only [] at hdd
+  rw [hdd] at S'
+  have hc : (settle (c.d.advance dt) 4).doneClosed = true := by
+    apply S'.closedIff.mpr
+    refine ⟨t, ?_, ?_⟩
+    · rw [settle_deadline]; exact hd
+    · rw [settle_now]; exact hp
+  simp only [step]
+  rw [release_of_closed (c := { c with d := settle (c.d.advance dt) 4 }) hb hc]
+  exact ⟨rfl, rfl⟩
+
+/-- after a deadline has passed every read fails with a timeout (also with data queued) until the
+    deadline is set again -/
+theorem timeout_persists (c : Conn) (h : Reach c) (t : Int) (hd : c.d.deadline = some t) (hp : t ≤ c.d.now)
+    (hb : c.blocked = false) :
+    (step c .read).2 = .timeout ∧ (step c .read).1 = c ∧
+    ∀ dt, (step c (.advance dt)).1.d.doneClosed = true ∧ (step c .arrive).1.d.doneClosed = true := by
+  have S := settled_reach h
+  have hc : c.d.doneClosed = true := S.closedIff.mpr ⟨t, hd, hp⟩
+  refine ⟨?_, ?_, ?_⟩
+  · simp [step, hb, hc]
+  · simp [step, hb, hc]
+  · intro dt
+    constructor
+    · have S' := settled_step S (.advance dt)
+      apply S'.closedIff.mpr
+      rw [step_d]
+      refine ⟨t, ?_, ?_⟩
+      · simp only []; rw [settle_deadline]; exact hd
+      · simp only []; rw [settle_now]; show t ≤ c.d.now + dt; omega
+    · rw [step_d]; exact hc
+
+/-- setting a later or the zero deadline makes reads wait for (or return) data again -/
+theorem later_or_zero_deadline_reads_again (c : Conn) (h : Reach c) (nt : Option Int)
+    (hn : ∀ t, nt = some t → c.d.now < t) (hb : c.blocked = false) :
+    let c' := (step c (.setDeadline nt)).1
+    (c'.queued > 0 → (step c' .read).2 = .data) ∧ (c'.queued = 0 → (step c' .read).2 = .blocked) := by
+  intro c'
+  have S' : Settled c'.d := settled_step (settled_reach h) (.setDeadline nt)
+  have hc' : c' = { c with d := settle (c.d.set nt) 4 } := by
+    show (step c (.setDeadline nt)).1 = _
+    simp only [step]
+    rw [release_unblocked (c := { c with d := settle (c.d.set nt) 4 }) hb]
+  have hb' : c'.blocked = false := by rw [hc']; exact hb
+  have hdl : c'.d.deadline = nt := by rw [hc']; show (settle (c.d.set nt) 4).deadline = nt; rw [settle_deadline, set_deadline]
+  have hnow : c'.d.now = c.d.now := by rw [hc']; show (settle (c.d.set nt) 4).now = _; rw [settle_now, set_now]
+  have hdc : c'.d.doneClosed = false := by
+    cases hx : c'.d.doneClosed with
+    | false => rfl
+    | true =>
+      obtain ⟨t, ht, hle⟩ := S'.closedIff.mp hx
+      rw [hdl] at ht
+      have := hn t ht
+      omega
+  constructor
+  · intro hq
+    simp only [step, hb', hdc, hq]
+    simp
+  · intro hq
+    simp only [step, hb', hdc, hq]
+    simp
+
+-- the pinned vnet socket's failing history on the model: the deadline expires unobserved, is extended,
+-- and the next read blocks (no early timeout); then the extended deadline releases it
+example : ((runConn Conn.new [.setDeadline (some 5), .advance 10, .setDeadline (some 2000), .read]).blocked,
+           (step (runConn Conn.new [.setDeadline (some 5), .advance 10, .setDeadline (some 2000), .read]) (.advance 1990)).2)
+    = (true, Res.timeout) := by decide
+
 end TV.Props.C10
